@@ -92,7 +92,48 @@ def n1p := asc "Nifti1Pair"
 def n2i := asc "Nifti2Image"
 def n2p := asc "Nifti2Pair"
 
+/-- the environment of the history model, from the regenerated tables -/
+def histEnv (sniffs : String) : Env :=
+  { table := classTable, baseKeys := baseOpenerKeys, imgKeys := openerKeys, icase := compressExtIcase,
+    saveSfx := saveSuffixes, toPair := [(n1i, n1p), (n2i, n2p)], toSingle := [(n1p, n1i), (n2p, n2i)],
+    imgHdr := [asc ".img", asc ".hdr"], nii := [asc ".nii"], headerKey := asc "header",
+    optional := [asc "mat"], sniffTab := parseSniffTable sniffs }
+
+/-- `O:=name` | `I:=name` | `S:Cls:=name` | `L:=name` | `R:=a:=b` -/
+def parseOp? (t : String) : Option Op :=
+  match t.splitOn ":" with
+  | ["O", n] => (dec? n).map (Op.opener false)
+  | ["I", n] => (dec? n).map (Op.opener true)
+  | ["S", c, n] => if c.isEmpty then none else (dec? n).map (Op.save (asc c))
+  | ["L", n] => (dec? n).map Op.load
+  | ["R", a, b] => do
+      let a ← dec? a
+      let b ← dec? b
+      pure (Op.rename a b)
+  | _ => none
+
+def showObs (root : Str) : Obs → String
+  | .codec c => "c" ++ toString c
+  | .saved w files =>
+      let fl := files.mergeSort (fun a b => strLe a.1 b.1)
+      "W=" ++ enc w ++ "," ++ "|".intercalate (fl.map fun f => enc (stripRoot root f.1) ++ ":" ++ toString f.2)
+  | .saveErr => "ERR"
+  | .loaded (.cls n) => enc n
+  | .loaded .nofile => "NOFILE"
+  | .loaded .err => "ERR"
+  | .loaded .mismatch => "MISMATCH"
+  | .loaded .unmodelled => "bad-op"
+  | .moved true => "mv1"
+  | .moved false => "mv0"
+  | .bad => "bad-op"
+
 def handle : List String → String
+  | "hist" :: root :: sniffs :: steps =>
+      match dec? root, steps.mapM parseOp? with
+      | some root, some ops =>
+          if ops.isEmpty then "bad-op"
+          else ";".intercalate ((runHist (histEnv sniffs) [] ops).2.map (showObs root))
+      | _, _ => "bad-op"
   | ["fm", cls, name] =>
       match rowByName? cls, dec? name with
       | some r, some n =>
